@@ -15,7 +15,7 @@ from sim import specs, canon, core, seams
 
 ID = "C10"
 DEFAULT_SEED = {"quick": 1010, "thorough": 2010}
-TIERS = {"quick": {"runs": 600, "budget_s": 100, "cap_s": 120},
+TIERS = {"quick": {"runs": 1000, "budget_s": 110, "cap_s": 150},
          "thorough": {"runs": 12000, "budget_s": 1500, "cap_s": 180}}
 STUBS = ["clients (1-3 scripted users, interleaved by the PRNG scheduler)",
          "SimSolver outage on history-making optimize() calls", "SimDisk (in-memory) behind eaopack.serialization.open"]
@@ -48,6 +48,8 @@ def grid_variant(env, g0, kind):
             return specs.gen_grid(env, freq=f, mtu=s0["mtu"])
         bigger = [t for t in specs.FREQ_T[s0["freq"]] if t > T0 and t <= 96]
         return specs.gen_grid(env, freq=s0["freq"], T=(bigger[0] if bigger else None), mtu=s0["mtu"], start_shift=False)
+    if s0.get("date_zone"):
+        return specs.gen_grid(env, freq=s0["freq"], mtu=s0["mtu"])
     s = copy.deepcopy(s0)
     if kind == "tz":
         tz = rng.choice([z for z in [None, "UTC", "CET", "US/Eastern"] if z != s0["tz"]])
@@ -84,6 +86,8 @@ def portfolio_is_mip(world, pid):
 
 def gen_world(rng, opts):
     env = specs.Env(rng, max_T=48)
+    env.allow_date_only_zone = True
+    env.coarse_p = 0.35
     w = env.world
     g0 = specs.gen_grid(env)
     n_g = rng.choice([2, 2, 3])
@@ -93,6 +97,11 @@ def gen_world(rng, opts):
     f0 = w["grids"][g0]["freq"]
     T0 = specs.grid_info(w, g0).T
     P0 = specs.gen_portfolio(env, grid_freq=f0, mip_ok=True, n_assets=rng.randint(1, 4))
+    # near-duplicates of assets (same window / frequency / parameter objects, other wacc or price ...)
+    for _ in range(rng.choice([0, 1, 1, 2])):
+        cl = specs.clone_asset(env, rng.choice(w["portfolios"][P0]["assets"]))
+        if cl is not None:
+            w["portfolios"][P0]["assets"].append(cl)
     tops = [P0]
     p0_assets = list(w["portfolios"][P0]["assets"])
     if rng.random() < 0.5 and len(p0_assets) >= 1:
@@ -256,7 +265,7 @@ def gen_scripts(rng, world, ctx):
         elif r < 0.5:
             st.append({"op": "P.samples", "obj": P, "grid": rng.choice([None, g]),
                        "prices": [ctx["prices"][g][1], ctx["prices"][g][0]][:rng.choice([1, 2])]})
-        elif r < 0.6:
+        elif r < 0.6 and can_solve:
             st.append({"op": "io.optimize", "obj": P, "grid": g, "prices": ctx["prices"][g][0],
                        "split": rng.choice([None, None, "d"])})
         return st
